@@ -133,7 +133,7 @@ example : (waitRun (waitInit { modules := ["a"], groups := [("a", "a")], mcfg :=
   decide +kernel
 
 example : (wakeStep (waitRun (waitInit { modules := ["a"], groups := [("a", "a")], mcfg := [modA] })
-    [.main, .main, .step "a", .step "a"])).ready = true := by
+    [.main, .main, .step "a", .step "a", .step "a"])).ready = true := by
   decide +kernel
 
 /-- proved part of `init_order_once`: in every life of a node that came up (no errors; every schedule and choice
@@ -239,32 +239,99 @@ example : (writeInitParams wfM).1 =
 example : blocks [([Ev.write "m" "w0"], some "RuntimeError"), ([Ev.write "m" "w1"], none)] =
     ([Ev.write "m" "w0"], some "RuntimeError") := by decide
 
-/-- the start-up sequence of a poll thread, for every state of the node, every thread and every assignment of write
-faults: first the configured values of **every** member (each one, in order), then the first polls of the polled members,
-then — last — the report that the first round is done. -/
-theorem prologue_writes_then_polls (st : St) (t : Name) :
-    ∃ W P, prologue st t = W ++ P ++ [Ev.rounddone t] ∧
-      (∀ m ∈ members st t, ∀ p ∈ (cfgOf st m).writes, Ev.write m p ∈ W) ∧
-      (∀ e ∈ W, ∃ m p, e = Ev.write m p) ∧ (∀ e ∈ P, ∃ m, e = Ev.firstpoll m) ∧
-      (∀ m ∈ members st t, (cfgOf st m).poll = true → Ev.firstpoll m ∈ P) := by
-  refine ⟨_, _, prologue_eq st t, ?_, ?_, ?_, ?_⟩
-  · intro m hm p hp
-    exact List.mem_flatMap.mpr ⟨m, hm, List.mem_map.mpr ⟨p, hp, rfl⟩⟩
-  · intro e he
-    obtain ⟨m, _, hm⟩ := List.mem_flatMap.mp he
-    obtain ⟨p, _, rfl⟩ := List.mem_map.mp hm
-    exact ⟨m, p, rfl⟩
-  · intro e he
-    obtain ⟨m, _, rfl⟩ := List.mem_map.mp he
-    exact ⟨m, rfl⟩
-  · intro m hm hp
-    exact List.mem_map.mpr ⟨m, List.mem_filter.mpr ⟨hm, hp⟩, rfl⟩
+/-- the start-up sequence of a poll thread when no communication failure occurs — for every state of the node, every
+thread, every assignment of write faults (any class, communication failures included: `writeInitParams` swallows them)
+and every other exception in `initialReads` / the first polls: the configured values of a member and then its initial
+reads, member by member, for **every** member; then the first polls of the polled members; then — last — the report
+that the first round is done. -/
+theorem startup_sequence_complete (st : St) (t : Name)
+    (hr : ∀ m ∈ members st t, readsQuiet (objOf st m))
+    (hp : ∀ m ∈ (members st t).filter (fun m => (cfgOf st m).poll), pollQuiet (objOf st m)) :
+    prologue st t =
+      (members st t).flatMap (fun m => (cfgOf st m).writes.map (Ev.write m) ++ [Ev.initread m]) ++
+      ((members st t).filter (fun m => (cfgOf st m).poll)).map Ev.firstpoll ++ [Ev.rounddone t] := by
+  unfold prologue
+  simp only [initLoop_ok st _ hr, pollLoop_ok st _ hp]
 
-def wfA : ModCfg := { (default : ModCfg) with name := "a", poll := true, writes := ["w0", "w1"], writeFail := [("w0", "ValueError")] }
-def wfB : ModCfg := { (default : ModCfg) with name := "b", writes := ["w1"] }
+def wfA : ModCfg := { (default : ModCfg) with name := "a", poll := true, writes := ["w0", "w1"], writeFail := [("w0", "CommunicationFailedError")], readsFail := some "KeyError" }
+def wfB : ModCfg := { (default : ModCfg) with name := "b", writes := ["w1"], pollFail := some "HardwareError" }
+def wfSt : St := { modules := ["a"], groups := [("a", "a"), ("a", "b")], mcfg := [wfA, wfB] }
 
-example : prologue { modules := ["a"], groups := [("a", "a"), ("a", "b")], mcfg := [wfA, wfB] } "a" =
-    [Ev.write "a" "w0", Ev.write "a" "w1", Ev.write "b" "w1", Ev.firstpoll "a", Ev.rounddone "a"] := by decide
+example : (∀ m ∈ members wfSt "a", readsQuiet (objOf wfSt m)) ∧
+    (∀ m ∈ (members wfSt "a").filter (fun m => (cfgOf wfSt m).poll), pollQuiet (objOf wfSt m)) := by
+  decide
+
+example : prologue wfSt "a" =
+    [Ev.write "a" "w0", Ev.write "a" "w1", Ev.initread "a", Ev.write "b" "w1", Ev.initread "b", Ev.firstpoll "a",
+     Ev.rounddone "a"] := by decide
+
+/-- with any faults whatsoever (communication failures included): in the events of a poll thread no configured value is
+written after a first poll — the thread's log is a part without polls followed by a part without writes. -/
+theorem writes_precede_polls_in_prologue (st : St) (t : Name) :
+    ∃ A B, prologue st t = A ++ B ∧ (∀ e ∈ A, ∀ m, e ≠ Ev.firstpoll m) ∧ (∀ e ∈ B, ∀ m p, e ≠ Ev.write m p) := by
+  have hA : ∀ e ∈ (initLoop st (members st t)).evs, ∀ m, e ≠ Ev.firstpoll m := by
+    intro e he m h; subst h
+    have := initLoop_il st _ _ he
+    simp [isInitLoopEv] at this
+  have hP : ∀ ms, ∀ e ∈ (pollLoop st ms).evs, ∀ m p, e ≠ Ev.write m p := by
+    intro ms e he m p h; subst h
+    have := pollLoop_pl st _ _ he
+    simp [isPollLoopEv] at this
+  have hL : ∀ ms, ∀ e ∈ latePolls st ms, ∀ m p, e ≠ Ev.write m p := by
+    intro ms e he m p h; subst h
+    have := latePolls_pl st _ _ he
+    simp [isPollLoopEv] at this
+  unfold prologue
+  simp only
+  split
+  next rest h =>
+    refine ⟨(initLoop st (members st t)).evs,
+      [Ev.rounddone t] ++ latePolls st ((members st t).filter (fun m => (cfgOf st m).poll)),
+      by simp [List.append_assoc], hA, ?_⟩
+    intro e he m p
+    simp only [List.mem_append, List.mem_singleton] at he
+    rcases he with rfl | he
+    · intro h; cases h
+    · exact hL _ e he m p
+  next h =>
+    split
+    next rest h2 =>
+      refine ⟨(initLoop st (members st t)).evs,
+        (pollLoop st ((members st t).filter (fun m => (cfgOf st m).poll))).evs ++ [Ev.rounddone t] ++ latePolls st rest,
+        by simp [List.append_assoc], hA, ?_⟩
+      intro e he m p
+      simp only [List.mem_append, List.mem_singleton] at he
+      rcases he with (he | rfl) | he
+      · exact hP _ e he m p
+      · intro h; cases h
+      · exact hL _ e he m p
+    next h2 =>
+      refine ⟨(initLoop st (members st t)).evs,
+        (pollLoop st ((members st t).filter (fun m => (cfgOf st m).poll))).evs ++ [Ev.rounddone t],
+        by simp [List.append_assoc], hA, ?_⟩
+      intro e he m p
+      simp only [List.mem_append, List.mem_singleton] at he
+      rcases he with he | rfl
+      · exact hP _ e he m p
+      · intro h; cases h
+
+/-- **recorded finding** (`known_findings/C15.json`, `C15:writes_skipped_after_comm_failure`), proved on the model of
+the code that exists: `io` serves `a` and `b`; `initialReads` of `a` raises a CommunicationFailedError.  The node comes
+up, `b` is polled, and the configured value of `b` is never written: the clause "configured start values are written
+before the first poll" fails, and the judge names exactly the clause kept for this class. -/
+def cfIo : ModCfg := { (default : ModCfg) with name := "io", cls := .comm, exported := true }
+def cfA : ModCfg := { (default : ModCfg) with name := "a", cls := .hasio, exported := true, poll := true, writes := ["w0"], atts := [⟨"io", some "io", false, 0⟩], readsFail := some "CommunicationFailedError" }
+def cfB : ModCfg := { (default : ModCfg) with name := "b", cls := .hasio, exported := true, poll := true, writes := ["w0"], atts := [⟨"io", some "io", false, 0⟩] }
+def cfCfg : Cfg := { mods := [cfIo, cfA, cfB], dyn := [] }
+
+theorem comm_failure_skips_writes :
+    (run cfCfg 20 [] (fun _ => 0)).st.errors = [] ∧
+    Ev.firstpoll "b" ∈ (run cfCfg 20 [] (fun _ => 0)).log ∧
+    Ev.write "b" "w0" ∉ (run cfCfg 20 [] (fun _ => 0)).log ∧
+    ¬ WritesBeforeFirstPoll [cfB] (run cfCfg 20 [] (fun _ => 0)).log ∧
+    judge cfCfg ⟨(run cfCfg 20 [] (fun _ => 0)).st.modules, [], (run cfCfg 20 [] (fun _ => 0)).log, []⟩ =
+      ["writes_skipped_after_comm_failure"] := by
+  decide +kernel
 
 /-- the configuration of the former finding: `d` fails in earlyInit, `u` uses its attachment to `d` in initModule -/
 def findingCfg : Cfg :=
